@@ -475,10 +475,9 @@ fn const_json<'tcx>(tcx: TyCtxt<'tcx>, tenv: TypingEnv<'tcx>, c: &ConstOperand<'
                         Const::Unevaluated(uv, _) => uv.args.iter().any(|a| a.has_param()),
                         _ => false,
                     };
-                    if !generic {
-                        if let Ok(cv) = c.const_.eval(tcx, tenv, c.span) {
-                            val = const_value_json(tcx, cv, ty);
-                        }
+                    let _ = generic;
+                    if let Ok(cv) = c.const_.eval(tcx, tenv, c.span) {
+                        val = const_value_json(tcx, cv, ty);
                     }
                 }
             }
